@@ -18,6 +18,11 @@ from vf.core import HOLDS, VIOLATION, INCONCLUSIVE
 from vf.symf import P
 
 ENGINE = "S"
+
+
+def _wr(run, ob, payload):
+    """replay file of this part (the aggregator dispatches on engine_part)"""
+    return run.write_replay(ob, dict(payload, engine_part="S"))
 FUNCS = ["proofs/src/poly/kzg/msm.rs::DualMSM::scale", "proofs/src/poly/kzg/msm.rs::DualMSM::add_msm",
          "proofs/src/poly/kzg/msm.rs::MSMKZG::scale", "proofs/src/poly/kzg/msm.rs::MSMKZG::add_msm",
          "proofs/src/poly/kzg/msm.rs::MSMKZG::append_term", "proofs/src/poly/kzg/msm.rs::MSMKZG::from_many",
@@ -69,13 +74,15 @@ def check(run):
         elif r.status == "sat":
             payload = {"kind": "fold", "n": n, "terms": terms}
             ob.set(VIOLATION if replay(payload) else INCONCLUSIVE, "accumulator differs from the r-weighted sum",
-                   replay=run.write_replay(ob, payload))
+                   replay=_wr(run, ob, payload))
         else:
             ob.set(INCONCLUSIVE, f"solver {r.status} / twin {tw.status}")
 
 
 def replay(payload):
     """concrete mode: all scalars, bases and r replaced by constants, the same real methods; compare numbers"""
+    if payload.get("engine_part") not in (None, "S") or payload.get("kind") not in ['fold']:
+        return None
     symf.build()
     d = symf.sx("batch", n=payload["n"], terms=payload["terms"], vals={})
     dag = symf.Dag(d["arena"])
